@@ -914,7 +914,7 @@ func (f *frame) checkCallbackContracts(callee *ssa.Function, site ssa.Instructio
 				// the caller passes on its own function-typed parameter: that
 				// parameter's contract must provide what the callee's needs
 				if have := vc.Eng.Spec.Funcs[FuncName(f.fn)+"."+par.Name()]; have != nil {
-					why := callbackSubsumes(want, have, want.ParamNames, have.ParamNames)
+					why := vc.callbackSubsumes(want, have, want.ParamNames, have.ParamNames)
 					goal := "true"
 					if why != "" {
 						goal = "false"
@@ -933,7 +933,7 @@ func (f *frame) checkCallbackContracts(callee *ssa.Function, site ssa.Instructio
 			for _, fp := range fn.Params {
 				names = append(names, fp.Name())
 			}
-			why = callbackSubsumes(want, have, want.ParamNames, names)
+			why = vc.callbackSubsumes(want, have, want.ParamNames, names)
 		}
 		goal := "true"
 		if why != "" {
@@ -955,12 +955,29 @@ func normClause(text string, names []string) string {
 	return strings.Join(strings.Fields(t), " ")
 }
 
-func callbackSubsumes(want, have *FuncSpec, wantNames, haveNames []string) string {
+// namingClause: "result == absf(args)" with absf an abstract (uninterpreted)
+// spec function - the parameter contract only NAMES what the callback computes
+// ("for any predicate"); any function that writes nothing provides it.
+var namingRe = regexp.MustCompile(`^result[0-9]* == ([A-Za-z_][A-Za-z0-9_]*)\([^()]*\)$`)
+
+func (vc *VC) namingClause(text string) bool {
+	m := namingRe.FindStringSubmatch(strings.TrimSpace(text))
+	if m == nil {
+		return false
+	}
+	pf := vc.Eng.Spec.Pures[m[1]]
+	return pf != nil && pf.Abstract
+}
+
+func (vc *VC) callbackSubsumes(want, have *FuncSpec, wantNames, haveNames []string) string {
 	haveEns := map[string]bool{}
 	for _, c := range have.Ensures {
 		haveEns[normClause(c.Text, haveNames)] = true
 	}
 	for _, c := range want.Ensures {
+		if vc.namingClause(c.Text) {
+			continue
+		}
 		if !haveEns[normClause(c.Text, wantNames)] {
 			return ": no ensures clause '" + c.Text + "' in the contract of the function passed"
 		}
